@@ -116,6 +116,16 @@ fn godepth(out: &mut Out, id: u64, case: &Value) {
             }
         }
     }
+    // earlier position commands on the same engine (another game before this one): must not influence the result
+    let mut pre_n = 0;
+    if let Some(pre) = case.get("pre").and_then(|w| w.as_array()) {
+        for w in pre {
+            if let Ok(f) = Fen::from_str(&str_of(w, "fen")) {
+                e.accept(UciCommand::PositionFrom { fen: f, moves: strs(w, "moves").iter().filter_map(|m| UciMove::from_str(m).ok()).collect() });
+                pre_n += 1;
+            }
+        }
+    }
     let f = Fen::from_str(&fen).expect("case FEN");
     e.accept(UciCommand::PositionFrom { fen: f, moves: moves.iter().filter_map(|m| UciMove::from_str(m).ok()).collect() });
     let (go, _, _) = build_go(&json!({"depth": d, "searchmoves": sm}));
@@ -146,7 +156,7 @@ fn godepth(out: &mut Out, id: u64, case: &Value) {
     }
     out.emit(&json!({"c": id, "ev": "godepth", "fen": fen, "moves": moves, "d": d, "searchmoves": sm, "st": st, "score": score_json(score), "depth_seen": depth_seen,
                      "pv": pv, "best": best, "ponder": ponder, "evals": evals, "tree": tbl.len(), "warm": warmed, "ref": str_of(case, "ref"),
-                     "contempt": verif::contempt(), "mode": str_of(case, "mode"), "flipof": u64_of(case, "flipof", 0), "cycle": strs(case, "cycle")}));
+                     "contempt": verif::contempt(), "mode": str_of(case, "mode"), "flipof": u64_of(case, "flipof", 0), "cycle": strs(case, "cycle"), "pre": pre_n}));
 }
 
 pub fn run(args: &[String]) -> i32 {
